@@ -374,6 +374,58 @@ pub fn write_out(dir: &str, rows: &[(Value, Value)]) -> anyhow::Result<()> {
     Ok(())
 }
 
+/// rebuild a `Case` from its JSON form (a generated pipeline case, or a raw case written by check.py)
+pub fn case_from_json(j: &Value) -> Case {
+    let strs = |k: &str| -> Vec<String> {
+        j.get(k).and_then(|v| v.as_array()).map(|a| a.iter().filter_map(|x| x.as_str().map(String::from)).collect()).unwrap_or_default()
+    };
+    let files: Vec<(String, Option<String>)> = j.get("files").and_then(|v| v.as_array()).map(|a| {
+        a.iter().map(|f| (f["path"].as_str().unwrap_or("").to_string(), f["text"].as_str().map(String::from))).collect()
+    }).unwrap_or_default();
+    let changes = j.get("changes").and_then(|v| v.as_object()).map(|m| {
+        m.iter().map(|(p, l)| {
+            (p.clone(), l.as_array().map(|a| a.iter().map(|c| {
+                (c["line"].as_u64().unwrap_or(0) as usize,
+                 c["ranges"].as_array().map(|rs| rs.iter().map(|r| (r[0].as_u64().unwrap_or(0) as usize, r[1].as_u64().unwrap_or(0) as usize)).collect()))
+            }).collect()).unwrap_or_default())
+        }).collect()
+    });
+    let mut patterns = strs("patterns");
+    if let Some(rx) = j.get("regex").and_then(|v| v.as_array()) {
+        for e in rx { if let Some(p) = e["p"].as_str() { patterns.push(p.to_string()); } }
+    }
+    Case {
+        files,
+        walk: strs("walk"),
+        allow: strs("allow"),
+        ignore: strs("ignore"),
+        scan: j.get("scan").and_then(|v| v.as_bool()).unwrap_or(true),
+        changes,
+        diff: j.get("diff").and_then(|v| v.as_str()).map(String::from),
+        extra: j.get("extra").and_then(|v| v.as_object()).map(|m| m.iter().filter_map(|(k, v)| v.as_str().map(|s| (k.clone(), s.to_string()))).collect()).unwrap_or_default(),
+        enabled: strs("enabled"),
+        disabled: strs("disabled"),
+        patterns,
+        meta: j.get("meta").cloned().unwrap_or(Value::Null),
+    }
+}
+
+/// `bwh replay --out DIR cases.jsonl`: re-run recorded / hand-written cases
+pub fn replay(path: &str, out: &str) -> anyhow::Result<()> {
+    let text = std::fs::read_to_string(path)?;
+    let mut ctx = Ctx::new();
+    let mut rows = vec![];
+    for line in text.lines() {
+        if line.trim().is_empty() { continue; }
+        let j: Value = serde_json::from_str(line)?;
+        let case = case_from_json(&j);
+        let cj = case_json(&mut ctx, &case);
+        let ij = run_impl(&mut ctx, &case);
+        rows.push((cj, ij));
+    }
+    write_out(out, &rows)
+}
+
 pub struct Args {
     pub seed: u64,
     pub n: usize,
